@@ -228,3 +228,13 @@ Proof.
   replace (hb_running (set_hb_req None s)) with true by (ds s; cbn in *; auto).
   unfold seq, hb_stop. destruct (rejoin_after_error k _) as [s1 o1]. reflexivity.
 Qed.
+
+(* ---------- coordinator moved / unavailable / silent: the cached coordinator is forgotten, so that the rejoin looks it up again ---------- *)
+Definition forgets_coordinator (k : ekind) : bool := match k with KCna | KNotCoord | KTimeout => true | _ => false end.
+Lemma coordinator_forgotten : forall k s, forgets_coordinator k = true -> In OReset (snd (rejoin_after_error k s)).
+Proof.
+  intros k s Hk. destruct k; try discriminate; cbn [rejoin_after_error]; unfold seq, emit.
+  - destruct (resched DRetry s). cbn. auto.
+  - destruct (resched DRetry s). cbn. auto.
+  - destruct (on_group_leave s) as [s1 o1]. destruct (resched DFatal s1). cbn. apply in_or_app. right. cbn. auto.
+Qed.
